@@ -177,6 +177,46 @@ func c16Worker(args []string) int {
 				break
 			}
 		}
+		// repeated directory parses (the package's files are held in a map): identical bytes every time,
+		// from several goroutines at once
+		var dirs [][][]byte
+		for i := range dirHandFiles {
+			for j := range dirHandFiles {
+				if i < j {
+					dirs = append(dirs, [][]byte{[]byte(dirHandFiles[i]), []byte(dirHandFiles[j]), []byte(dirHandFiles[(i+j)%len(dirHandFiles)])})
+				}
+			}
+		}
+		var dmu sync.Mutex
+		var dwg sync.WaitGroup
+		for di := range dirs {
+			dwg.Add(1)
+			go func(di int) {
+				defer dwg.Done()
+				var first [][]byte
+				for k := 0; k < 12; k++ {
+					out, msg := runDir(dirs[di])
+					dmu.Lock()
+					if msg != "" {
+						fmt.Printf("DIFF repeat-dir %d: %s\n", di, msg)
+						dmu.Unlock()
+						return
+					}
+					if first == nil {
+						first = out
+					}
+					for j := range out {
+						if !bytes.Equal(out[j], first[j]) {
+							fmt.Printf("DIFF repeat-dir %d run %d: file %d differs between identical ParseDir calls: %q vs %q\n", di, k, j, first[j], out[j])
+							dmu.Unlock()
+							return
+						}
+					}
+					dmu.Unlock()
+				}
+			}(di)
+		}
+		dwg.Wait()
 		fmt.Println("STRESS-DONE")
 		return 0
 	case "trace":
@@ -463,6 +503,7 @@ func checkC16(c *Ctx) {
 	}
 	c.Eval("stress: 40 rounds x 16 goroutines x 3 decorate+restore calls, shared goast resolver (New / WithResolver) and shared guess resolver", true)
 	c.Eval("repeat: 60 identical import-managed restores", true)
+	c.Eval("repeat: 15 three-file directories x 12 identical ParseDir+Fprint runs, concurrently", true)
 	if strings.Contains(se, "DATA RACE") {
 		rep := se[strings.Index(se, "WARNING: DATA RACE"):]
 		where := "other"
